@@ -165,8 +165,9 @@ def step (s : St) (op : List String) (impl : String) : LineOut St :=
         let re := mkOracle tbl
         let q : QueryMsg := { lt := BitVec.ofNat 64 t, id := qid, flags := fl, name := hx name, filters := filters }
         let (b', o) := handleQuery re s.cfg b q
-        let internal := name.startsWith internalHex
-        let app := if o.delivered && !internal then s!"{t}/{name}" else "-"
+        -- what `serfQueries.stream` forwards of the node's event channel (real name, not hex)
+        let chan : List AppEv := if o.delivered then [.query q.lt ((stringOfHex? name).getD "")] else []
+        let app := if (forwardedToApp chan).isEmpty then "-" else s!"{t}/{name}"
         let ack := if o.acked then s!"{t}/{qid}/{unhx s.cfg.name}/1" else "-"
         let out := s!"app={app} ack={ack} rb={if o.rebroadcast then 1 else 0} clk={b'.clock.toNat}"
         let s1 := { s with buf := some b' }
